@@ -2,7 +2,8 @@
 # usage: seed_one.sh <name e.g. C01-b> <check ids...>   (agent output expected in /tmp/seed/<name>/SEED_OUT)
 # runs the checks against the patched tree in isolation (mutrun), then confirms the seed independently and files it.
 name=$1; shift
-src=/tmp/seed/$name/SEED_OUT
-python3 /verif/tools/mutrun.py $src/patch.diff "$@" > /tmp/seed/$name.results 2>&1
-python3 /verif/tools/confirm_seed.py $src $name /tmp/seed/$name.results > /tmp/seed/$name.confirm 2>&1
-cat /tmp/seed/$name.confirm; cut -c1-600 /tmp/seed/$name.results
+base=${SEED_BASE:-/tmp/seed}
+src=$base/$name/SEED_OUT
+python3 /verif/tools/mutrun.py $src/patch.diff "$@" > $base/$name.results 2>&1
+python3 /verif/tools/confirm_seed.py $src $name $base/$name.results > $base/$name.confirm 2>&1
+cat $base/$name.confirm; cut -c1-600 $base/$name.results
